@@ -52,6 +52,8 @@ def primary_output(d):
         return n + '.c'
     if k == 'copy':
         f = d['ins'][0]['f']
+        if not f:                     # a copy / link of a built file
+            return 'cp_' + n + '.out'
         return f + ('.txt' if f == 'd1' else '.c')
     return None
 
@@ -98,6 +100,10 @@ def bfg_text(decls, header=''):
             L.append("%s = build_step(%r, cmd=%s%s%s)" % (
                 n, outs if len(outs) > 1 else outs[0], cmd,
                 ', always_outdated=True' if d['always'] else '', xd))
+        elif k == 'copy' and d['ins'][0]['t']:
+            L.append("%s = copy_file(%r, %s, mode=%r)" % (
+                n, 'cp_' + n + '.out', ref_expr(d['ins'][0], decls),
+                d.get('mode', 'copy')))
         elif k == 'copy':
             L.append("%s = copy_file(source_file(%s%s))" % (
                 n, ref_expr(d['ins'][0], decls),
@@ -186,8 +192,8 @@ class Runner:
     def mtimes(self):
         m = {}
         for n, o in self.outs.items():
-            try:
-                m[n] = os.stat(os.path.join(self.p.bld, o)).st_mtime_ns
+            try:     # (the link itself, not what it points to)
+                m[n] = os.lstat(os.path.join(self.p.bld, o)).st_mtime_ns
             except OSError:
                 m[n] = None
         return m
